@@ -61,19 +61,22 @@ theorem C09_numbered_not_listed (stem ext : Name) (listing : List Name) :
   numbered_fresh stem ext listing
 
 /-- **Distinct while holding a path.** Download tasks start (choose a path and claim it in one step
-— transfer/manager.py:699-706 has no suspension point between the two), end complete or cut off, and
+— `_prepare_download_path` has no suspension point between the two), end complete or cut off, and
 are started again (a cut-off download resumes on the path it holds, a completed one forgets its path
-and chooses anew), in any order, any number of them, with any remote paths, with an OSError injected
-into any claiming step, over any initial directory content. For a chain ending in the
+and chooses anew), the user moves the files of completed downloads away and downloads are queued again
+without being started yet — in any order, any number of them, with any remote paths, with an OSError
+injected into any claiming step, over any initial directory content. For a chain ending in the
 number-duplicate strategy no two downloads that hold a path at the same time hold the same one —
-running or not — and each held path is regular and exists in the directory (it was claimed). -/
+running or not — and each held path is regular and exists in the directory (it was claimed); the only
+paths exempt are those of completed downloads whose file the user has moved away (`gone`): such a path
+is still stored in the transfer object, but it is never used again (`C09_requeue_forgets_path`). -/
 theorem C09_distinct_holders (fs0 : Fs) (ss : List Strategy) (ops : List Op)
     (hl : ss.getLast? = some .number) :
     (run ss { fs := fs0, dls := [] } ops).dls.Pairwise
-        (fun a b => (a.dir, a.name) ≠ (b.dir, b.name)) ∧
+        (fun a b => a.status ≠ .gone → b.status ≠ .gone → (a.dir, a.name) ≠ (b.dir, b.name)) ∧
     ∀ a ∈ (run ss { fs := fs0, dls := [] } ops).dls,
       Regular a.name ∧ (∀ c ∈ a.dir, Regular c) ∧
-      (run ss { fs := fs0, dls := [] } ops).fs.has a.dir a.name = true := by
+      (a.status ≠ .gone → (run ss { fs := fs0, dls := [] } ops).fs.has a.dir a.name = true) := by
   have h := run_inv ss hl ops { fs := fs0, dls := [] } ⟨by simp, by simp⟩
   exact ⟨h.2, h.1⟩
 
@@ -82,8 +85,71 @@ running at the same time never share a local path. -/
 theorem C09_distinct_concurrent (fs0 : Fs) (ss : List Strategy) (ops : List Op)
     (hl : ss.getLast? = some .number) :
     (run ss { fs := fs0, dls := [] } ops).active.Pairwise
-        (fun a b => (a.dir, a.name) ≠ (b.dir, b.name)) :=
-  (C09_distinct_holders fs0 ss ops hl).1.sublist List.filter_sublist
+        (fun a b => (a.dir, a.name) ≠ (b.dir, b.name)) := by
+  have h := (C09_distinct_holders fs0 ss ops hl).1.sublist
+    (List.filter_sublist (p := fun a => a.status == .running))
+  refine List.Pairwise.imp_of_mem ?_ h
+  intro a b ha hb hab
+  have hsa : a.status = .running := by simpa using (List.mem_filter.mp ha).2
+  have hsb : b.status = .running := by simpa using (List.mem_filter.mp hb).2
+  exact hab (by rw [hsa]; decide) (by rw [hsb]; decide)
+
+/-- **Queueing a finished download again forgets its path** — whether its file is still there or has
+been moved away: afterwards the download holds no path, so when it is started (now or after any other
+downloads have come and gone) it takes the `chooseAndClaim` branch — a name that is free at that moment —
+and never the unchecked `resumed` one. A download that "gets its old place back" because the file is gone
+would hold a name that nobody owns while it waits. -/
+theorem C09_requeue_forgets_path (ss : List Strategy) (s : Sys) (id : Nat) (a : Dl)
+    (hf : s.find id = some a) (hc : a.status = .complete ∨ a.status = .gone) :
+    (step ss s (.requeue id)).1.find id = none ∧ (step ss s (.requeue id)).1.fs = s.fs ∧
+    ∀ remote fault, ∀ d n, (step ss (step ss s (.requeue id)).1 (.start id remote fault)).2 ≠ .resumed d n := by
+  have hdrop : (step ss s (.requeue id)).1 = { s with dls := s.drop id } := by
+    simp only [step, hf]
+    rw [if_pos hc]
+  have hnone : ({ s with dls := s.drop id } : Sys).find id = none := by
+    simp only [Sys.find, Sys.drop, List.find?_eq_none, List.mem_filter]
+    intro x hx
+    simpa using hx.2
+  rw [hdrop]
+  refine ⟨hnone, rfl, ?_⟩
+  intro remote fault d n
+  simp only [step, hnone]
+  unfold chooseAndClaim
+  split
+  · intro h; cases h
+  · split <;> (intro h; cases h)
+
+/-- **A moved-away file frees its name and nothing else.** After the user has moved the file of a completed
+download away, that name does not exist in the directory any more (the next download of an equally named
+file may take it), every other entry is where it was, and no entry appeared. -/
+theorem C09_remove_frees_only_its_name (ss : List Strategy) (s : Sys) (id : Nat) (a : Dl)
+    (hf : s.find id = some a) (hc : a.status = .complete)
+    (hthere : s.fs.any (fun e => e.dir == a.dir && e.name == a.name && !e.isDir) = true) :
+    (step ss s (.remove id)).1.fs.has a.dir a.name = false ∧
+    (∀ e ∈ s.fs, (e.dir, e.name) ≠ (a.dir, a.name) → e ∈ (step ss s (.remove id)).1.fs) ∧
+    (∀ e ∈ (step ss s (.remove id)).1.fs, e ∈ s.fs) := by
+  have hst : (step ss s (.remove id)).1.fs = s.fs.filter (fun e => !(e.dir == a.dir && e.name == a.name)) := by
+    simp only [step, hf]
+    rw [if_pos hc, if_pos hthere]
+  rw [hst]
+  refine ⟨?_, ?_, ?_⟩
+  · unfold Fs.has
+    rw [Bool.eq_false_iff]
+    intro h
+    rw [List.any_eq_true] at h
+    obtain ⟨e, he, hq⟩ := h
+    have := (List.mem_filter.mp he).2
+    rw [hq] at this
+    cases this
+  · intro e he hne
+    rw [List.mem_filter]
+    refine ⟨he, ?_⟩
+    simp only [Bool.not_eq_eq_eq_not, Bool.not_true, Bool.and_eq_false_iff, beq_eq_false_iff_ne, ne_eq]
+    by_cases hd : e.dir = a.dir
+    · right; intro hn; exact hne (by rw [hd, hn])
+    · left; exact hd
+  · intro e he
+    exact (List.mem_filter.mp he).1
 
 /-- **The path used is the path that was checked.** When a starting download is given a path
 (`chosen d n`), `(d, n)` is exactly what `chain_strategies` returned on the directory content of that
@@ -205,6 +271,15 @@ example : ((run [.default, .number] { fs := [], dls := [] }
     [.start 1 ['x'] .none, .cut 1, .start 2 ['x'] .none, .finish 2, .start 1 ['x'] .none, .start 2 ['x'] .none]
     ).active.map (fun a => (a.id, a.name)))
     = [(2, ['x', ' ', '(', '2', ')']), (1, ['x'])] := by decide
+-- download 1 completes, the user moves its file away, it is queued again and waits; download 2 takes the free name;
+-- download 1 starts: it holds nothing, chooses anew and gets the numbered name (it does not "get its place back")
+example : ((run [.default, .number] { fs := [], dls := [] }
+    [.start 1 ['x'] .none, .finish 1, .remove 1, .requeue 1, .start 2 ['x'] .none, .start 1 ['x'] .none]
+    ).active.map (fun a => (a.id, a.name)))
+    = [(1, ['x', ' ', '(', '1', ')']), (2, ['x'])] := by decide
+-- the hypotheses of `C09_requeue_forgets_path` / `C09_remove_frees_only_its_name` are met by a reachable state
+example : ((run [.default, .number] { fs := [], dls := [] } [.start 1 ['x'] .none, .finish 1]).find 1).map (·.status)
+    = some .complete := by decide
 -- the final path string of a kept directory, and where it leads
 example : finalPath [['q']] ['x'] = some ['/', 'q', '/', 'x'] ∧ resolve ['/', 'q', '/', 'x'] = some [['q'], ['x']] := by
   decide
